@@ -21,7 +21,8 @@ func (p *watPrinter) printFuncs() error {
 			fmt.Fprintf(p.w, " %s", watPrinter_identOrIndex(fn.Name))
 		}
 
-		if fn.ExportName != "" {
+		if fn.ExportName != "" && fn.Name == "" && !p.hasExportField(token.FUNC, fn.ExportName) {
+			// only an anonymous function keeps its export inline; all others are (export ...) fields
 			fmt.Fprintf(p.w, " (export %q)", fn.ExportName)
 		}
 
